@@ -211,4 +211,35 @@ MUTANTS = {
             y_true
             - np.clip(y_pred, self.min_val, self.max_val)
         ) ** 2""")]},
+    # ---------------------------------------------------------------- C04 / C05 threshold optimizer
+    "hull_strict_comparator": {
+        "props": ["C05"], "what": "convex hull keeps collinear/dominated points only with strict '<'",
+        "edits": [(TC, "            if (r1.y - r0.y) * (r2.x - r0.x) <= (r2.y - r0.y) * (r1.x - r0.x):", "            if (r1.y - r0.y) * (r2.x - r0.x) < (r2.y - r0.y) * (r1.x - r0.x) - 0.05:")]},
+    "no_left_shift_at_grid_points": {
+        "props": ["C04", "C05"], "what": "interpolation index not shifted left when a grid point coincides with a hull vertex",
+        "edits": [(TC, "    indices[1:] = np.where(x_grid[1:] == x_values[indices[1:]], indices[1:] - 1, indices[1:])\n", "")]},
+    "p0_p1_swapped": {
+        "props": ["C04", "C05"], "what": "interpolation weights p0/p1 swapped",
+        "edits": [(TC, "    p0 = x_distance_from_next_data_point / x_distance_between_data_points\n    p1 = 1 - p0", "    p1 = x_distance_from_next_data_point / x_distance_between_data_points\n    p0 = 1 - p1")]},
+    "p_ignore_against_x": {
+        "props": ["C04", "C05"], "what": "p_ignore numerator uses y - x_best instead of y - y_best",
+        "edits": [(TO, "                difference_from_best_predictor_for_sensitive_feature = roc_result.y - self._y_best", "                difference_from_best_predictor_for_sensitive_feature = roc_result.y - self._x_best")]},
+    "group_weight_uniform": {
+        "props": ["C05"], "what": "groups weighted 1/#groups instead of n_g/n",
+        "edits": [(TO, "            p_sensitive_feature_value = len(group) / n", "            p_sensitive_feature_value = 1.0 / len(data_grouped_by_sensitive_feature)")]},
+    "argmax_off_by_one": {
+        "props": ["C05"], "what": "grid arg-max taken one index to the right (clipped)",
+        "edits": [(TO, "        i_best = overall_tradeoff_curve.idxmax()", "        i_best = min(overall_tradeoff_curve.idxmax() + 1, len(self._x_grid) - 1)")]},
+    "eo_pointwise_max_of_hulls": {
+        "props": ["C04", "C05"], "what": "equalized odds uses the pointwise maximum of the ROC hulls",
+        "edits": [(TO, "        self._y_min = np.amin(y_values, axis=1)", "        self._y_min = np.amax(y_values, axis=1)")]},
+    "different_grid_index_per_group": {
+        "props": ["C04"], "what": "each group takes the grid index of its own best point",
+        "edits": [(TO, "            best_interpolation = self._tradeoff_curve[sensitive_feature_value].iloc[i_best]", "            best_interpolation = self._tradeoff_curve[sensitive_feature_value].iloc[self._tradeoff_curve[sensitive_feature_value]['y'].idxmax()]")]},
+    "tie_grouping_isclose": {
+        "props": ["C04"], "what": "scores within np.isclose are treated as tied when counting but not when placing the threshold",
+        "edits": [(TC, "            while scores[i] == threshold:", "            while np.isclose(scores[i], threshold):")]},
+    "rev_fix_eo_dataframe_y": {
+        "props": ["C12"], "what": "revert fix b18a4c8: labels.sum().loc[0]",
+        "edits": [(TO, "            n_positive = labels.sum().iloc[0]", "            n_positive = labels.sum().loc[0]")]},
 }
